@@ -6,6 +6,7 @@ max(internal, user); the order of Disposition; KILL/STOP and initially-ignored g
 the pending flag protocol; that every consumer of the system's signal list feeds the
 trap set; when traps run and that $? is preserved; dispositions reset before exec;
 where override_ignore comes from."""
+import json
 import re
 from engine import RuleSet
 import mirq as Q
@@ -1289,3 +1290,196 @@ def r13(cx):
 
 RS.explanation += (' A caught signal is taken out of the trap set (pending flag cleared) only immediately before its own action is run and awaited; '
                    'no function drains several pending signals before running them (R13).')
+
+
+# ----------------------------------------------------------------- R14
+# added for seed C11-s8 (= C08): Concurrent::set_disposition unblocked the signal only when the PREVIOUS disposition was Catch.
+# The sibling of C08.R3b one layer down: GrandState::enter_subshell(.., Ignore) installs the disposition "even if it does not change"
+# because this function then unblocks SIGINT/SIGQUIT; so here nothing but the NEW disposition may decide whether the mask is updated.
+SIGNAL_SYSTEM = 'yash_env::trap::SignalSystem'
+SIGACTION_CALLS = [SIGACTION, re.compile(r' as yash_env::system::signal::Sigaction>::sigaction$'), '*::Sigaction::sigaction']
+SIGMASK_CALLS = ['yash_env::system::signal::Sigmask::sigmask', re.compile(r' as yash_env::system::signal::Sigmask>::sigmask$'), '*::Sigmask::sigmask']
+SIGMASK_OP = 'yash_env::system::signal::SigmaskOp'
+
+
+def _updates_mask(F, t, depth=2):
+    """The call changes the process signal mask: Sigmask::sigmask itself or a helper of the system layer that calls it."""
+    if Q.callee_is(t, SIGMASK_CALLS):
+        return True
+    callee = (t['f'].get('def') or '').split('::{closure')[0]
+    if depth <= 0 or not callee.startswith('yash_env::system::') or callee not in F.by_root:
+        return False
+    return any(_updates_mask(F, ct, depth - 1) for hb in F.logical(callee) for _, ct in hb.calls())
+
+
+def _mask_op(du, t):
+    """SigmaskOp variant (Add / Remove / Set) a mask-updating call is given as a plain argument, or None."""
+    for a in t['a']:
+        o = du.origin(a)
+        if o['k'] == 'agg' and o['rv'].get('adt') == SIGMASK_OP:
+            return o['rv'].get('variant')
+    return None
+
+
+def _canon_place(du, operand):
+    """The place an operand is a copy of / a reference to (for comparing "the same value")."""
+    o = du.origin(operand)
+    for _ in range(6):
+        if o['k'] in ('place', 'ref'):
+            pl = du.deref_origin(o['pl'])
+            if Q.is_plain(pl):
+                o2 = du.origin_place(pl)
+                if o2['k'] in ('place', 'ref') and o2.get('pl') != pl:
+                    o = o2
+                    continue
+            return json.dumps(pl, sort_keys=True)
+        return None
+    return None
+
+
+def _says_about_new(body, du, org, lab, new_places, variants):
+    """What a condition states about the new disposition: ('is', V) / ('is-not', V) for `new == / != Disposition::V`,
+    ('variant', V) for a variant test on the value itself; None when the condition is about something else."""
+    if org['k'] == 'call' and Q.callee_is(org['t'], EQ + NE) and len(org['t']['a']) == 2 and lab[0] == 'bool':
+        ct = org['t']
+        if not any(_canon_place(du, a) in new_places for a in ct['a']):
+            return None
+        consts = [n.rsplit('::', 1)[-1] for n in eq_const_args(body, du, ct) if n.startswith(DISP + '::')]
+        if len(consts) != 1 or consts[0] not in variants:
+            return None
+        equal = lab[1] if Q.callee_is(ct, EQ) else not lab[1]
+        return ('is' if equal else 'is-not', consts[0])
+    if org['k'] == 'discr' and (org.get('ty') or '').lstrip('&').strip() == DISP and lab[0] == 'variant':
+        if _canon_place(du, {'cp': org['pl']}) in new_places:
+            return ('variant', lab[1])
+    return None
+
+
+def _contradicting_edges(F, body, du, new_places, variant, variants):
+    """Switch edges that cannot be taken when the new disposition is `variant`: the edges of tests `new == / != Disposition::W` and of
+    variant tests on the value itself, and every edge into a block whose implied conditions (dominating tests, seen through
+    materialised `matches!` / `&&` flags) contradict it."""
+    out = set()
+
+    def contradicts(conds):
+        per_edge = {}
+        for org, lab, e in conds:
+            what = _says_about_new(body, du, org, lab, new_places, variants)
+            if what is None:
+                continue
+            if what[0] == 'is' and what[1] != variant or what[0] == 'is-not' and what[1] == variant:
+                return True
+            if what[0] == 'variant':
+                per_edge.setdefault((e, json.dumps(org.get('pl'), sort_keys=True)), set()).add(what[1])
+        return any(variant not in labs for labs in per_edge.values())
+    live = body.live_blocks()
+    for u in live:
+        ec = Q.edge_condition(F, body, du, u)
+        if ec:
+            for tgt, labs in ec[1].items():
+                if contradicts([(ec[0], lab, (u, tgt)) for lab in labs]):
+                    out.add((u, tgt))
+    for s in live:
+        if s != 0 and contradicts(Q.implied_conditions(F, body, du, s)):
+            for u in body.pred(s):
+                out.add((u, s))
+    return out
+
+
+@RS.rule('C11.R14', 'K-PASS+K-GUARD', 'SignalSystem::set_disposition of the system layer keeps mask and disposition together on every successful path, '
+         'decided by the NEW disposition alone: Catch -> the signal is blocked (awaited) before sigaction installs the handler; Default/Ignore '
+         '-> it is unblocked (awaited) after sigaction, whatever sigaction reports as the previous disposition')
+def r14(cx):
+    F = cx.F
+    variants = [v['name'] for v in F.adt(DISP)['variants']]
+    cx.require('Catch' in variants and len(variants) >= 2, 'Disposition::Catch not found')
+    impls = [it['def'] for i in F.impls if i.get('trait_def') == SIGNAL_SYSTEM for it in i['items'] if it['name'] == 'set_disposition']
+    cx.require(impls, 'no implementation of SignalSystem::set_disposition found')
+    installers = 0
+    for fn in impls:
+        bodies = [b for b in F.logical(fn) if Q.find_calls(b, SIGACTION_CALLS)]
+        if not bodies:
+            fwd = [pp.callee(t) for b in F.logical(fn) for _, t in b.calls() if any(n.endswith('::set_disposition') for n in Q.callee_names(t))]
+            cx.site('%s: no sigaction here; forwards to %s' % (fn, sorted(set(fwd)) or 'nothing'))
+            if not fwd:
+                cx.violation(fn, 'no-sigaction', 'this implementation of SignalSystem::set_disposition neither installs the disposition nor forwards '
+                             'the request', loc=F.body(fn).loc(F.body(fn).d))
+            continue
+        for body in bodies:
+            installers += 1
+            cx.fn(body.fn)
+            du = Q.DefUse(body)
+            sig = Q.find_calls(body, SIGACTION_CALLS)
+            new_places = {_canon_place(du, st['a'][-1]) for sb, st in sig}
+            cx.require(None not in new_places and len(new_places) == 1,
+                       '%s: the disposition passed to sigaction is not a plain copy of one parameter / capture' % fn)
+            old_taint = set()
+            for sb, st in sig:
+                old_taint |= Q.forward_taint(body, {st['dest']['l']})
+            updates = []
+            for b, t in body.calls():
+                if any(t is st for _, st in sig) or not _updates_mask(F, t):
+                    continue
+                d = await_done(F, body, du, t)
+                op = _mask_op(du, t)
+                if d is None and F.is_async((t['f'].get('def') or '').split('::{closure')[0]):
+                    cx.violation(fn, 'mask-update-not-awaited:%s' % op, 'the future of the mask update is not awaited: the mask is not changed',
+                                 loc=body.loc(t))
+                updates.append((b, t, d if d is not None else b, op))
+            cx.site('%s: sigaction at %s; mask updates: %s' % (body.fn, [body.loc(st) for _, st in sig],
+                                                                [(op, body.loc(t)) for b, t, d, op in updates] or 'none'))
+            if not updates:
+                cx.violation(fn, 'mask-never-updated', 'set_disposition installs the disposition but never changes the signal mask: a caught signal '
+                             'is delivered outside select, an ignored/defaulted one may stay blocked', loc=body.loc(sig[0][1]))
+                continue
+            oks = {b for b, j, s in Q.find_aggregates(body, 'core::result::Result', 'Ok') if s['lhs']['l'] == 0}
+            goals = oks or set(body.return_blocks())
+            err = _error_edges(F, body, du, old_taint)
+            for _, t, _, _ in updates:
+                err |= _error_edges(F, body, du, Q.forward_taint(body, {t['dest']['l']}, through_calls=Q.AWAIT_CALLS + TRY))
+            for v in variants:
+                removed = _contradicting_edges(F, body, du, new_places, v, variants) | err
+                feasible = body.reachable(0, removed_edges=removed) | {0}
+                sigs = [(sb, st) for sb, st in sig if sb in feasible]
+                if not sigs:
+                    cx.site('%s: new disposition %s: sigaction is not reached' % (body.fn, v))
+                    cx.violation(fn, 'not-installed:%s' % v, 'set_disposition(signal, %s) never reaches sigaction' % v, loc=body.loc(sig[0][1]))
+                    continue
+                sblocks = {sb for sb, _ in sigs}
+                if v == 'Catch':
+                    through = {d for b, t, d, op in updates if op in ('Add', None)}
+                    p = Q.must_pass(body, [0], through, goal_blocks=sblocks, removed_edges=removed)
+                    cx.site('%s: new disposition Catch: blocked before sigaction on every path: %s' % (body.fn, p is None))
+                    if p is not None:
+                        cx.violation(fn, 'catch-not-blocked-first', 'when the new disposition is Catch the handler is installed on a path that has not '
+                                     'blocked the signal first: a signal arriving right then runs the handler outside select and its trap waits for '
+                                     'an unrelated wake-up', loc=body.loc(body.term(p[-1])), path=Q.render_path(body, p))
+                    continue
+                after = set()
+                for sb in sblocks:
+                    after |= body.reachable(sb, removed_edges=removed)
+                through = {d for b, t, d, op in updates if op in ('Remove', None) and d in after}
+                starts = [st['to'] if st.get('to') is not None else sb for sb, st in sigs]
+                p = Q.must_pass(body, starts, through, goal_blocks=goals, removed_edges=removed)
+                cx.site('%s: new disposition %s: unblocked after sigaction on every successful path: %s' % (body.fn, v, p is None))
+                if p is not None:
+                    on_old = False
+                    for x, y in zip(p, p[1:]):
+                        ec = Q.edge_condition(F, body, du, x)
+                        if ec and ((ec[0]['k'] == 'call' and any(Q.operand_local(a) in old_taint or
+                                                                   (du.origin(a)['k'] == 'ref' and du.origin(a)['pl']['l'] in old_taint)
+                                                                   for a in ec[0]['t']['a'])) or
+                                   (ec[0]['k'] in ('discr', 'place') and ec[0]['pl']['l'] in old_taint)):
+                            on_old = True
+                    cx.violation(fn, 'unblock-skipped:%s' % v, 'set_disposition(signal, %s) can succeed without removing the signal from the '
+                                 'signal mask%s. GrandState::enter_subshell(.., Ignore) installs Ignore "even if it does not change" exactly '
+                                 'because this call unblocks SIGINT/SIGQUIT, which Config::start blocked before the fork: an asynchronous command '
+                                 'started without job control keeps them blocked for its whole life, `trap - INT` in it has no effect, and every '
+                                 'program it execs inherits the blocked mask'
+                                 % (v, ' - the skipping test reads the PREVIOUS disposition returned by sigaction' if on_old else ''),
+                                 loc=body.loc(body.term(p[-2] if len(p) > 1 else p[0])), path=Q.render_path(body, p))
+    cx.floor(installers, 1, 'implementations of SignalSystem::set_disposition that call sigaction')
+
+
+RS.explanation += (' In the system layer set_disposition updates the signal mask on every successful path, decided by the new disposition alone: '
+                   'blocked before a handler is installed, unblocked after Default/Ignore is installed whatever the previous disposition was (R14).')
